@@ -1,0 +1,22 @@
+//go:build !verif
+
+// Package vhook holds the seams used by a deterministic-simulation harness.
+// This file is the default build: every hook is an empty stub.
+package vhook
+
+import "time"
+
+// On reports whether the hooks are compiled in.
+const On = false
+
+func Point(site string)                                 {}
+func PointID(site string, id uint64)                    {}
+func WaitLock(site string, try func() bool)             {}
+func NoYield(delta int)                                 {}
+func Choose(site string, n int) int                     { return -1 }
+func IO(kind, path string, off, n int64)                {}
+func Event(kind string, a, b uint64)                    {}
+func EventKV(kind string, key, val []byte, a, b uint64) {}
+func Fault(site string) error                           { return nil }
+func SkipHeight() (int, bool)                           { return 0, false }
+func Now() (time.Time, bool)                            { return time.Time{}, false }
